@@ -15,7 +15,7 @@ import (
 	"go.sia.tech/hostd/v2/host/contracts"
 )
 
-const vrC03Directed = 5
+const vrC03Directed = 6
 
 func TestVerifC03(t *testing.T) {
 	em := newVerifEmitter(t, vrCoqHeader, "case", "check")
@@ -52,6 +52,9 @@ func TestVerifC03(t *testing.T) {
 		case id == 4:
 			em.BeginCase(id, "directed: a store failure at every statement of one v2 revision")
 			w.c03FaultSweepV2()
+		case id == 5:
+			em.BeginCase(id, "directed (WP-G): locks held across heights; updaters, commits and renewals through them at the boundaries of the last confirmable height")
+			w.c03HeldLock()
 		case id%12 == 7 && os.Getenv("VERIF_RAW") == "1":
 			// only when asked for (props/C03.json sets VERIF_RAW=1 in the thorough tier): these
 			// cases tie the model to the store's defensive code on inputs no disciplined caller
@@ -77,6 +80,64 @@ func TestVerifC03(t *testing.T) {
 		em.EndCase(w.accepted > 0)
 		w.close()
 	}
+}
+
+// case 5 (WP-G, fixes/C06-revise-guard-at-commit.patch): isGoodForModification is evaluated by Manager.Lock when
+// the lock is acquired and again by ReviseContract, ContractUpdater.Commit and RenewContract at the tip of
+// that moment.  Two contracts with window start 1000 are locked at height 10 and the locks are kept while
+// the tip moves to 855 (two blocks of slack), 856 (the last confirmable height: 856 + 144 = 1000), 857, 999,
+// 1000 and 1005: writes, payment-only commits, an updater opened at 856 and committed at 857, renewals.
+func (w *vrWorld) c03HeldLock() {
+	for _, r := range w.roots {
+		w.storeSec(r)
+	}
+	a, b := w.freshID(), w.freshID()
+	w.form1(a, 1000)
+	w.form1(b, 1000)
+	w.lock1(a)
+	w.lock1(b)
+	write := func(id types.FileContractID, k int) {
+		u := w.open1(id)
+		if u < 0 {
+			return
+		}
+		w.act(u, vrApp(w.roots[k%len(w.roots)]))
+		w.commit1(u, -1)
+		w.commit1(u, -1) // payment only: nothing changed since the last commit
+		w.close1(u)
+	}
+	for k, h := range []uint64{855, 856} {
+		w.setHeight(h)
+		write(a, k)
+		write(b, k)
+	}
+	// an updater opened while the contract is revisable, committed one block later
+	if u := w.open1(a); u >= 0 {
+		w.act(u, vrApp(w.roots[2]))
+		w.setHeight(857)
+		w.commit1(u, -1)
+		w.act(u, vrTrim(1))
+		w.commit1(u, -1) // still refused: nothing of the refused commit stuck
+		w.close1(u)
+	}
+	for k, h := range []uint64{857, 999, 1000, 1005} {
+		w.setHeight(h)
+		write(a, k)
+		w.renew1(b, vrRenewOK, -1)
+		w.look(a, false)
+	}
+	// the tip goes back (a reorganisation): revisable again, the renewal goes through
+	w.setHeight(856)
+	write(a, 3)
+	w.renew1(b, vrRenewOK, -1)
+	w.setHeight(857)
+	if u := w.open1(b); u >= 0 { // renewed: refuses whatever the height
+		w.hit("renewed-predecessor-accepts-updater", fmt.Sprintf("contract %d", w.cN(b)))
+		w.close1(u)
+	}
+	w.unlock1(a)
+	w.unlock1(b)
+	w.setHeight(10)
 }
 
 func vrApp(r types.Hash256) contracts.SectorChange {
@@ -326,8 +387,9 @@ func (w *vrWorld) c03Generated() {
 		case r < 88:
 			w.prune()
 			w.located(w.poolRoot())
-		case r < 91:
-			if rng.Intn(5) == 0 { // close to (or past) the proof windows: locks are refused
+		case r < 92:
+			switch q := rng.Intn(6); {
+			case q == 0: // close to (or past) the proof windows: locks are refused
 				w.setHeight(800 + uint64(rng.Intn(400)))
 				if len(w.order1) > 0 {
 					id := w.order1[rng.Intn(len(w.order1))]
@@ -337,8 +399,17 @@ func (w *vrWorld) c03Generated() {
 						}
 					}
 				}
+				w.setHeight(10 + uint64(rng.Intn(50)))
+			case q < 4 && len(w.order1) > 0:
+				// WP-G: the tip moves to a boundary of some contract's last confirmable height and STAYS
+				// there: the sessions that hold locks meet the guard at ReviseContract / Commit / RenewContract
+				c := w.v1[w.order1[rng.Intn(len(w.order1))]]
+				off := []int64{-2, -1, 0, 1, 2, vrRevBuffer - 1, vrRevBuffer, vrRevBuffer + 3}[rng.Intn(8)]
+				w.setHeight(uint64(int64(c.window) - vrRevBuffer + off))
+				w.em.Count(fmt.Sprintf("height:boundary:%+d", off))
+			default:
+				w.setHeight(10 + uint64(rng.Intn(50)))
 			}
-			w.setHeight(10 + uint64(rng.Intn(50)))
 		case r < 94:
 			w.restart()
 			ss = map[types.FileContractID]*sess{}
